@@ -1208,6 +1208,80 @@ pub unsafe fn bad_string_sweep() -> Result<u64, String> {
     Ok(calls)
 }
 
+/// Failing calls whose error message quotes long caller text: every text-taking entry point is
+/// given malformed input built from 1-, 2-, 3- and 4-byte characters, preceded by 0..3 ASCII
+/// bytes, of total sizes around 60, 120, 250..260, 510..515, 1020..1030, 4090..4100 and 65 536
+/// bytes; the failure must be reported by the sentinel and the message must be retrievable
+/// exactly once (and destroyable). Returns the number of calls made.
+pub unsafe fn long_error_sweep() -> Result<u64, String> {
+    let mut calls = 0u64;
+    let _ = take_error();
+    let mut sizes: Vec<usize> = vec![60, 120];
+    sizes.extend(248..=262);
+    sizes.extend(508..=516);
+    sizes.extend(1020..=1030);
+    sizes.extend(4092..=4100);
+    sizes.push(65_536);
+    let date = Box::into_raw(haystack_value_make_date(2021, 3, 4).expect("date"));
+    let time = Box::into_raw(haystack_value_make_time(5, 6, 7).expect("time"));
+    let result = (|| -> Result<(), String> {
+        for unit_char in ["x", "é", "€", "😀", "д"] {
+            for pad in 0..4usize {
+                for &size in &sizes {
+                    let mut body = "p".repeat(pad);
+                    while body.len() + unit_char.len() <= size {
+                        body.push_str(unit_char);
+                    }
+                    // malformed in each grammar, quoting the body in different places
+                    let texts: Vec<(&str, String)> = vec![
+                        ("zinc-unterminated-dict", format!("{{\"{body}\"}}")),
+                        ("zinc-bad-token", format!("{body}")),
+                        ("zinc-unknown-unit", format!("5{body}")),
+                        ("json-bad-kind", format!("{{\"_kind\":\"{body}\"}}")),
+                        ("json-not-json", format!("{body}")),
+                        ("filter-bad", format!("site and \"{body}\"")),
+                        ("filter-bad-token", format!("{body} ==")),
+                    ];
+                    for (what, t) in &texts {
+                        let c = match CString::new(t.as_bytes()) {
+                            Ok(c) => c,
+                            Err(_) => continue,
+                        };
+                        let (failed, name) = if what.starts_with("zinc") {
+                            let r = haystack_value_from_zinc_string(c.as_ptr());
+                            (r.is_none(), "from_zinc_string")
+                        } else if what.starts_with("json") {
+                            let r = haystack_value_from_json_string(c.as_ptr());
+                            (r.is_none(), "from_json_string")
+                        } else {
+                            let r = haystack_filter_parse(c.as_ptr());
+                            let f = r.is_none();
+                            if let Some(b) = r {
+                                destroy_filter(Box::into_raw(b));
+                            }
+                            (f, "filter_parse")
+                        };
+                        calls += 1;
+                        // (some of these texts are legal, e.g. a long identifier is a filter)
+                        check_error(failed, &format!("{name}({what}, {} bytes of {unit_char:?} after {pad})", t.len()))?;
+                    }
+                    let c = CString::new(body.as_bytes()).expect("no NUL");
+                    let r = haystack_value_make_number_with_unit(1.0, c.as_ptr());
+                    calls += 1;
+                    check_error(r.is_none(), &format!("make_number_with_unit({} bytes of {unit_char:?})", body.len()))?;
+                    let r = haystack_value_make_tz_datetime(date, time, c.as_ptr());
+                    calls += 1;
+                    check_error(r.is_none(), &format!("make_tz_datetime(zone of {} bytes of {unit_char:?})", body.len()))?;
+                }
+            }
+        }
+        Ok(())
+    })();
+    haystack_value_destroy(date);
+    haystack_value_destroy(time);
+    result.map(|_| calls)
+}
+
 /// Borrowed entry pointers stay valid — and keep pointing at the same entry — across every
 /// read-only call on their container (the protocol: "while the container is alive and
 /// unmodified"); every returned string is a fresh allocation that can be destroyed on its own.
